@@ -1030,12 +1030,9 @@ func (x *Exec) checkInvariants(st *State, ls *LoopSpec, phase string, idx *Term)
 		return
 	}
 	for _, inv := range ls.Invariants {
-		for k, conj := range x.clauseConjuncts(st, inv, idx) {
-			name := fmt.Sprintf("%s/%s.%s", x.key, inv.Name, phase)
-			if k > 0 {
-				name = fmt.Sprintf("%s/%s.%d.%s", x.key, inv.Name, k+1, phase)
-			}
-			x.oblige(st, name, "invariant", inv.Text, conj)
+		for _, p := range x.clauseParts(st, inv, idx) {
+			name := fmt.Sprintf("%s/%s%s.%s", x.key, inv.Name, p.suffix, phase)
+			x.oblige(st, name, "invariant", inv.Text, p.t)
 		}
 	}
 }
@@ -1053,14 +1050,64 @@ func (x *Exec) assumeInvariants(st *State, ls *LoopSpec, idx *Term) {
 
 // clauseConjuncts translates a clause in state st and splits top-level conjunctions.
 func (x *Exec) clauseConjuncts(st *State, cl *Clause, idx *Term) []*Term {
-	t := x.evalClause(st, cl, idx)
-	if t.kind == kApp && t.op == "and" {
-		return t.args
+	var out []*Term
+	for _, p := range x.clauseParts(st, cl, idx) {
+		out = append(out, p.t)
 	}
-	return []*Term{t}
+	return out
+}
+
+type namedConj struct {
+	suffix string // "" | ".2" | ".2/c3": source-level conjunct number, then term-level sub-conjunct
+	t      *Term
+}
+
+// clauseParts splits a clause into obligations with stable names: first along the top-level &&
+// of the clause text (numbered as written), then — for the solver's benefit — along the
+// conjunction obtained after inlining spec predicates ("/cN").
+func (x *Exec) clauseParts(st *State, cl *Clause, idx *Term) []namedConj {
+	var asts []ast.Expr
+	var split func(e ast.Expr)
+	split = func(e ast.Expr) {
+		if pe, ok := e.(*ast.ParenExpr); ok && !cl.Olds[pe] {
+			split(pe.X)
+			return
+		}
+		if b, ok := e.(*ast.BinaryExpr); ok && b.Op == token.LAND {
+			split(b.X)
+			split(b.Y)
+			return
+		}
+		asts = append(asts, e)
+	}
+	split(cl.Expr)
+	var out []namedConj
+	for a, e := range asts {
+		t := x.evalClauseExpr(st, cl, e, idx)
+		base := ""
+		if a > 0 {
+			base = fmt.Sprintf(".%d", a+1)
+		}
+		if t.kind == kApp && t.op == "and" {
+			for k, sub := range t.args {
+				sfx := base
+				if k > 0 {
+					sfx += fmt.Sprintf("/c%d", k+1)
+				}
+				out = append(out, namedConj{sfx, sub})
+			}
+			continue
+		}
+		out = append(out, namedConj{base, t})
+	}
+	return out
 }
 
 func (x *Exec) evalClause(st *State, cl *Clause, idx *Term) *Term {
+	return x.evalClauseExpr(st, cl, cl.Expr, idx)
+}
+
+func (x *Exec) evalClauseExpr(st *State, cl *Clause, e ast.Expr, idx *Term) *Term {
 	savedInfo, savedClause, savedPH := x.info, x.curClause, x.placehold
 	x.info, x.curClause = cl.Info, cl
 	ph := map[string]Val{}
@@ -1072,7 +1119,7 @@ func (x *Exec) evalClause(st *State, cl *Clause, idx *Term) *Term {
 	}
 	x.placehold = ph
 	x.noOblig++
-	v := x.expr(st, cl.Expr)
+	v := x.expr(st, e)
 	x.noOblig--
 	x.info, x.curClause, x.placehold = savedInfo, savedClause, savedPH
 	return v.T
